@@ -4,6 +4,8 @@
    current contents (not of the order in which documents were stored) -- that is property C06. *)
 From Coq Require Import List NArith ZArith Bool.
 From Verif Require Import Model.Lsp Proofs.LspInv.
+From Coq Require Sorting.Sorted.
+From Verif Require Gen.GenProject Model.Project Proofs.ProjectProofs.
 Import ListNotations.
 
 (* exactly one publishDiagnostics per didOpen / didChange, for that document, carrying its version *)
@@ -54,6 +56,34 @@ Theorem C11_close_forgets :
   (forall k, k <> u_id u -> get text (fst (step text D T diag no_diag tokens null_tokens d (DidClose text u))) k = get text d k).
 Proof. exact close_forgets. Qed.
 
+(* ... and for EVERY analysis, order-sensitive or not, once what is published is modelled as it is computed: the sources are
+   sorted by file identifier before they are parsed and analyzed together, and the diagnostics that mention the notified file
+   are kept (Model/Project.v) *)
+Theorem C11_history_independent_any_analysis :
+  forall (text A T : Type) (analysis : list (N * text) -> list A) (mentions : A -> N -> bool) no_diag tokens (null_tokens : T)
+         (ms : list (msg text)) (a b : docs text),
+  same_contents text a b ->
+  same_contents text (fst (run text (list A) T (Project.file_diags text A analysis mentions) no_diag tokens null_tokens a ms))
+                     (fst (run text (list A) T (Project.file_diags text A analysis mentions) no_diag tokens null_tokens b ms)) /\
+  snd (run text (list A) T (Project.file_diags text A analysis mentions) no_diag tokens null_tokens a ms)
+  = snd (run text (list A) T (Project.file_diags text A analysis mentions) no_diag tokens null_tokens b ms).
+Proof. intros text A T analysis mentions. exact (ProjectProofs.run_same_sorted text A analysis mentions T). Qed.
+
+(* what the analysis is given: every stored document once, with its current text, in the order of the identifiers *)
+Theorem C11_analysis_input :
+  forall (text : Type) (d : docs text),
+  (forall k t, In (k, t) (Project.listing text d) <-> get text d k = Some t) /\
+  Sorted.StronglySorted N.lt (map fst (Project.listing text d)).
+Proof. intros text d. split; [intros k t; apply ProjectProofs.listing_spec | apply ProjectProofs.listing_keys]. Qed.
+
+(* equal to `check`: the command line fills the same kind of project from files and calls the same function, so when the files
+   hold what the documents hold the diagnostics that mention a file are the same *)
+Theorem C11_same_as_check :
+  forall (text A : Type) (analysis : list (N * text) -> list A) (mentions : A -> N -> bool) (lsp files : docs text) u,
+  same_contents text lsp files ->
+  Project.file_diags text A analysis mentions lsp u = filter (fun x => mentions x u) (Project.semantic text A analysis files).
+Proof. exact ProjectProofs.same_as_check. Qed.
+
 (* non-vacuity of the hypothesis: an analysis that looks documents up by name is a function of the contents *)
 Example C11_example :
   let diag := fun (d : docs nat) (u : N) => get nat d u in
@@ -61,3 +91,14 @@ Example C11_example :
   snd (run nat (option nat) bool diag None (fun _ => true) false [] [DidOpen nat (mkUri 1 true) 1%Z 7%nat; DidChange nat (mkUri 1 true) 2%Z [8%nat; 9%nat]])
   = [Publish (option nat) bool (mkUri 1 true) 1%Z (Some 7%nat); Publish (option nat) bool (mkUri 1 true) 2%Z (Some 9%nat)].
 Proof. split; [intros a b u H; apply H | vm_compute; reflexivity]. Qed.
+
+From Coq Require Import String.
+(* the model is the source's: the steps of FileBackedProject::semantic, its sort key, the language server's filter and the call
+   in cli::check, regenerated on every run *)
+Theorem C11_project_model_is_the_source :
+  GenProject.project_semantic_steps = ["collect the map"; "sort by key"; "parse each in that order"; "analyze together"]%string /\
+  GenProject.project_sort_key = "source.0.to_string()"%string /\
+  GenProject.lsp_file_filter = "d.file_ids().contains(&file_id)"%string /\
+  GenProject.check_calls = "project.semantic()"%string.
+Proof. repeat split; reflexivity. Qed.
+
